@@ -6,4 +6,11 @@ cd "$(dirname "$0")"
 id="$1"; tier="${2:-${VERIF_TIER:-quick}}"
 [ -x bin/govc ] || ./setup.sh >/dev/null || exit 2
 export GOFLAGS=-mod=mod GOPROXY=off
-exec bin/govc check -property "$id" -tier "$tier" -repo "${VERIF_REPO:-/repo}" -verif "$(pwd)"
+bin/govc check -property "$id" -tier "$tier" -repo "${VERIF_REPO:-/repo}" -verif "$(pwd)"
+rc=$?
+if [ "$tier" = thorough ] && [ $rc -eq 0 ]; then
+  # vacuity guard of the thorough tier: the must-fail corpus of this property (scratch copies outside /repo and /verif)
+  python3 tools/selftest.py -j 4 -p "$id" > "replays/selftest_$id.log" 2>&1 || { echo "SELFTEST-FAILED: a must-fail mutant of $id was not reported at its obligation (see replays/selftest_$id.log)"; tail -3 "replays/selftest_$id.log"; exit 2; }
+  tail -1 "replays/selftest_$id.log"
+fi
+exit $rc
